@@ -7,6 +7,7 @@ CONSTANTS
   MaxSubs = 4
   MaxOps = 7
   UsePlain = FALSE
+  UseBurst = FALSE
   UseBad = FALSE
 INVARIANTS C13_OneActive
 PROPERTIES StepsOK
